@@ -24,6 +24,10 @@
    * the lags / leads options are delegated to Classify.class_of (C03_lags_leads); C15_build_def says the fields come from
      class_of syms o for every o.
    * KNOWN FINDING: "a namespace that provides BaseModel" is not enough for the typed text (C15_exec_namespace_refuted).
+   * KEPT FINDINGS without a model-level statement of name resolution: the class returned by build_model resolves free names of
+     the equations in fsic.parser's globals, an exec'd class in the caller's (oracle: `Y = bool(split_equations(X)) + X`); the model's
+     `exec` oracle abstracts the namespace away, so C15_build_model_returns_iff_text_executes says nothing about it.
+   * "inserted verbatim" is about characters, not meaning: C15_indent_inside_string_literal_refuted.
    * a docstring edit in ONE template, a new kind of type hint, another field order or text after {equations} make
      C15_templates_agree_modulo_hints / C15_template_fields fail to compile: reported as a broken proof
      (VIOLATION … no-failing-input-found unless the oracle also fails); K_text is byte for byte and stricter than the property. *)
@@ -149,7 +153,8 @@ Proof. exact indent_empty_prefix. Qed.
 Print Assumptions C15_indent_empty_prefix.
 
 (* … and on text whose lines are separated by "\n" the lines stay the same lines: each one that is not whitespace-only gets
-   the prefix, nothing else of the converter's output changes *)
+   the prefix and no character is otherwise added, removed or reordered.  NOT claimed: that the MEANING of the inserted code is
+   unchanged — a continuation line inside a multi-line string literal gets the prefix too (C15_indent_inside_string_literal_refuted) *)
 Theorem C15_indent_line_by_line : forall p ls,
   forallb no_sep ls = true -> indent p (join_nl ls) = join_nl (map (indent_line p) ls).
 Proof. exact indent_join_nl. Qed.
@@ -290,3 +295,10 @@ Theorem C15_block_follows_evaluate_docstring : forall h,
   ends_with ("        """"""" ++ nl_s) (seg h 6) = true /\ seg h 7 = "".
 Proof. exact block_follows_evaluate_docstring. Qed.
 Print Assumptions C15_block_follows_evaluate_docstring.
+
+(* KEPT FINDING (reviewer2-E): the indentation reaches inside a multi-line string literal of verbatim code and changes its value *)
+Theorem C15_indent_inside_string_literal_refuted :
+  indent eq_prefix ("self.s = " ++ tq ++ "a" ++ nl_s ++ nl_s ++ "b" ++ tq) =
+  "        self.s = " ++ tq ++ "a" ++ nl_s ++ nl_s ++ "        b" ++ tq.
+Proof. exact indent_inside_string_literal_refuted. Qed.
+Print Assumptions C15_indent_inside_string_literal_refuted.
